@@ -814,6 +814,19 @@ class LanguageGraph():
                 super_asset.sub_assets.append(asset)
                 asset.super_assets.append(super_asset)
 
+        # Associations are collected per asset below, so an association
+        # neither end of which is a known asset would never be looked at.
+        for association in self._lang_spec['associations']:
+            if self.get_asset_by_name(association['leftAsset']) is None and \
+                self.get_asset_by_name(association['rightAsset']) is None:
+                msg = 'Left asset "%s" and right asset "%s" for ' \
+                    'association "%s" not found!'
+                logger.error(msg, association["leftAsset"],
+                    association["rightAsset"], association["name"])
+                raise LanguageGraphAssociationError(
+                    msg % (association["leftAsset"],
+                        association["rightAsset"], association["name"]))
+
         # Generate all of the association nodes of the language graph.
         for asset in self.assets:
             logger.debug(
